@@ -209,6 +209,32 @@ theorem C09.step_defect_is_residual (cgc : Cgc) (L : Level) (b x c : Vec) (hc : 
   | minEnergy => exact sc _
   | minDefect => exact sc _
 
+/-- The adaptive step lengths are invariant under scaling of the defect: with `d`, `c`, `t = F(A c)` all scaled by
+    `s ≠ 0` (which is what scaling the defect does to them, by linearity of every other component) the quotients
+    `<d,c>/<t,c>` and `<d,t>/<t,t>` - including the zero-denominator guard - do not change. -/
+theorem C09.omega_scale_invariant (s : Rat) (hs : s ≠ 0) (d c t : Vec) :
+    cgcOmega (dot (vscale s d) (vscale s c)) (dot (vscale s t) (vscale s c)) = cgcOmega (dot d c) (dot t c) ∧
+    cgcOmega (dot (vscale s d) (vscale s t)) (dot (vscale s t) (vscale s t)) = cgcOmega (dot d t) (dot t t) := by
+  constructor <;>
+    rw [dot_vscale_left, dot_vscale_right, dot_vscale_left, dot_vscale_right, cgcOmega_scale _ _ _ hs]
+
+/-- Homogeneity of the textbook operator in all three coarse grid correction modes (also the adaptive, non-linear
+    ones): `mgRef (s·d) = s·mgRef d` for every scalar `s` (even `s = 0`), every cycle, level count and sub-range.
+    This is the exact-arithmetic fact that the double stream `double-homogeneity` instantiates with `s = 2^k`, where
+    scaling commutes with every IEEE operation and the identity must therefore hold bit for bit. -/
+theorem C09.textbook_homogeneous (levels : Array Level) (k : Cycle) (cgc : Cgc) (top crs : Nat) (h : top ≤ crs)
+    (s : Rat) (d : Vec) :
+    applyRef levels k cgc top crs (vscale s d) = vscale s (applyRef levels k cgc top crs d) := by
+  have ho : crs < ({ lv := Array.replicate (crs + 1) {} } : Obj).lv.size := by simp
+  obtain ⟨log, x, e1, e2⟩ := C09.cycle_homogeneous levels k cgc top crs h s d _ _ ho ho
+  obtain ⟨l1, t1⟩ := C09.apply_eq_textbook levels k cgc top crs h d _ ho
+  obtain ⟨l2, t2⟩ := C09.apply_eq_textbook levels k cgc top crs h (vscale s d) _ ho
+  rw [t1] at e1
+  rw [t2] at e2
+  injection e1 with _ hx
+  injection e2 with _ hy
+  rw [hy, ← hx]
+
 /-! ## absent smoothers: the `nullptr` code paths -/
 
 /-- No pre-smoother (or a restriction that continues from an inner peak): `format` + copy resp. nothing at all. -/
